@@ -229,6 +229,26 @@ def run(seed=0, rounds=3):
         structural("setitem slice", lambda I, a, c: (a.__vc_setitem__(I, (slice(1, None),), c.__vc_getitem__(I, (slice(1, None),))), a)[1],
                    lambda a, c: torch.cat([a[:1], c[1:]], 0), [(x, "float"), (y, "float")])
         structural("in-place add", lambda I, a, c: a.__vc_iop__(I, ast.Add(), c), lambda a, c: a + c, [(x, "float"), (y, "float")])
+        # operations of the flat-trie descent (C06): tensor indices, repeats, row-major split, integer sums, symbolic negative index
+        v1, vi = rt((Bd,)), rt((Bd,), "long")
+        it_ = torch.tensor([[rng.randrange(Bd) for _ in range(C)] for _ in range(A)])
+        structural("index by tensor (rank 2 index)", lambda I, a, i_: a.__vc_getitem__(I, i_), lambda a, i_: a[i_], [(v1, "float"), (it_, "long")])
+        structural("repeat", lambda I, a: M["repeat"](I, a, z3.IntVal(A)), lambda a: a.repeat(A), [(v1, "float")])
+        structural("repeat_interleave", lambda I, a: M["repeat_interleave"](I, a, z3.IntVal(C)), lambda a: a.repeat_interleave(C), [(vi, "long")])
+        structural("view split", lambda I, a: M["view"](I, M["flatten"](I, a), z3.IntVal(A), z3.IntVal(Bd)), lambda a: a.flatten().view(A, Bd), F_)
+        kneg = z3.Int("k_neg!%d" % rnd)
+        for kk in range(1, A + 1):
+            n[0] += 1
+            I_ = _mk()
+            s_, f_ = _table(x, "float")
+            row = s_.__vc_getitem__(I_, -kneg)
+            sol = z3.Solver()
+            sol.add(f_ + [kneg == kk] + [z3.Not(z3.And(_all_equal(row, x[-kk])))])
+            if sol.check() != z3.unsat:
+                bad.append("symbolic negative index: x[-k] at k = %d differs from torch" % kk)
+        structural("isfinite", lambda I, a, c: F["torch.isfinite"](I, M["masked_fill"](I, a, c, -float("inf"))), lambda a, c: torch.isfinite(a.masked_fill(c, -float("inf"))), [(x, "float"), (b, "bool")])
+        structural("zeros_like", lambda I, a: F["torch.zeros_like"](I, a), lambda a: torch.zeros_like(a), F_)
+        structural("min of one element + item", lambda I, a: M["expand"](I, stn.ST((), lambda: M["item"](I, M["min"](I, a.__vc_getitem__(I, (0, 0)))), "float"), 2), lambda a: a[0, 0].min().expand(2), F_)
         # contracts
         def sum_insts(I):
             out = []
@@ -260,6 +280,10 @@ def run(seed=0, rounds=3):
             return out
 
         admits("any dim 1", lambda I, a: M["any"](I, a, 1), lambda a: a.any(1), [(b, "bool")], any_insts)
+        admits("any dim 1 (witness form)", lambda I, a: M["any"](I, a, 1), lambda a: a.any(1), [(b, "bool")],
+               lambda I: [x_ for an in I.ex.ghost.get("anys", []) for o in range(3) for x_ in [an["witness"]([z3.IntVal(o)])] + [an["intro"]([z3.IntVal(o)], z3.IntVal(j)) for j in range(3)]])
+        admits("integer sum dim 1", lambda I, a: M["sum"](I, a, 1), lambda a: a.sum(1), [(xi, "long")], sum_insts)
+        admits("Boolean sum dim 1", lambda I, a: M["sum"](I, a, 1), lambda a: a.sum(1), [(b, "bool")], sum_insts)
 
         def min_insts(I):
             out = []
